@@ -10,7 +10,9 @@ F_REG = 'atsim/potentials/config/_potential_form_registry.py'
 F_EB = 'atsim/potentials/config/_eam_potential_builder.py'
 import contracts.duplicates as DU
 import contracts.builders_eam as BE
-FUNCTIONS = [(F_CP, 'ConfigParser._pair_species_func'), (F_CP, 'ConfigParser._check_for_duplicate_pairs'), (F_EB, 'EAM_Potential_Builder_FS._density_to_potential_form_dict')]
+import contracts.rawparser as RPc
+FUNCTIONS = [(F_CP, 'ConfigParser._pair_species_func'), (F_CP, 'ConfigParser._check_for_duplicate_pairs'), (F_EB, 'EAM_Potential_Builder_FS._density_to_potential_form_dict'),
+             (F_CP, '_RawConfigParser.has_option')]     # additions are tested with has_option(): own keys compared by normal form
 
 def lemmas():
     out = []
@@ -45,7 +47,11 @@ def lemmas():
     out.append(S('C20', F_REG, 'Potential_Form_Registry._build_potential_forms', 'label-clash-with-anything-registered',
                  ['if d.signature.label in potential_forms:\n            raise Potential_Form_Registry_Exception', 'if d.signature.label in self._potential_forms:\n            raise Potential_Form_Registry_Exception']))
     out.append(S('C20', F_REG, 'Potential_Form_Registry._build_table_forms', 'name-clash-with-anything-registered',
-                 ['if d.name in self._potential_forms or d.name in table_forms:\n            raise Potential_Form_Registry_Exception'], forbidden=['d.signature']))
+                 ['if d.name in self._potential_forms or d.name in table_forms or d.name in self._late_standard_names:\n            raise Potential_Form_Registry_Exception'], forbidden=['d.signature']))
+    out.append(S('C20', F_REG, 'Potential_Form_Registry.__init__', 'late-standard-names-reserved',
+                 ['self._late_standard_names = self._standard_names_from_potentialforms() - set(self._potential_forms)']))
+    out.append(S('C20', F_REG, 'Potential_Form_Registry._standard_names_from_potentialforms', 'same-enumeration-as-the-late-registration',
+                 ['return set([self._make_standard_name(name) for name, _potential_form in inspect.getmembers(potentialforms, _iscallable)])']))
     out.append(S('C20', F_REG, 'Potential_Form_Registry.__init__', 'standard-then-table-then-formula',
                  ['self._potential_forms.update(self._register_standard())', 'self._potential_forms.update(self._build_table_forms(cfg.table_form))', 'self._potential_forms.update(self._build_potential_forms(definitions))']))
     # (5) Finnis-Sinclair densities
